@@ -18,11 +18,22 @@ type solverSpec struct {
 }
 
 var solvers = []solverSpec{
+	// first: pattern-based instantiation only (fast and insensitive to seeds); a proof found this way is stable
+	{"z3-new-5.1.0(ematch)", func(f string, t int, seed int) []string {
+		return []string{"z3-new", fmt.Sprintf("-T:%d", t), "smt.mbqi=false", "smt.auto_config=false", fmt.Sprintf("smt.random_seed=%d", seed), f}
+	}},
 	{"z3-new-5.1.0", func(f string, t int, seed int) []string {
 		return []string{"z3-new", fmt.Sprintf("-T:%d", t), fmt.Sprintf("smt.random_seed=%d", seed), fmt.Sprintf("sat.random_seed=%d", seed), f}
 	}},
 	{"z3-4.8.12", func(f string, t int, seed int) []string {
 		return []string{"z3", fmt.Sprintf("-T:%d", t), fmt.Sprintf("smt.random_seed=%d", seed), f}
+	}},
+	// proofs that need model-based instantiation depend on the solver's random choices: retry with other seeds
+	{"z3-new-5.1.0(seed+1)", func(f string, t int, seed int) []string {
+		return []string{"z3-new", fmt.Sprintf("-T:%d", t), fmt.Sprintf("smt.random_seed=%d", seed+1), fmt.Sprintf("sat.random_seed=%d", seed+1), f}
+	}},
+	{"z3-new-5.1.0(seed+2,relevancy0)", func(f string, t int, seed int) []string {
+		return []string{"z3-new", fmt.Sprintf("-T:%d", t), fmt.Sprintf("smt.random_seed=%d", seed+2), "smt.relevancy=0", f}
 	}},
 	{"cvc5-1.0", func(f string, t int, seed int) []string {
 		return []string{"cvc5", "--lang", "smt2", fmt.Sprintf("--tlimit=%d", t*1000), fmt.Sprintf("--seed=%d", seed), f}
@@ -119,13 +130,13 @@ func Discharge(obls []*Obligation, workDir string, timeoutS, seed int, crossChec
 					} else {
 						o.Verdict = "failed"
 					}
-					if crossCheck && sp.name == solvers[0].name {
+					if crossCheck && (sp.name == solvers[0].name || sp.name == solvers[1].name) {
 						// a second opinion from the older z3: disagreement = broken check
-						v2, out2, d2 := runSolver(solvers[1], file, timeoutS, seed)
+						v2, out2, d2 := runSolver(solvers[2], file, timeoutS, seed)
 						o.TimeS += d2
 						if (v2 == "sat" || v2 == "unsat") && v2 != verdict {
 							o.Verdict = "solver-disagreement"
-							o.Output = out + "\n--- " + solvers[1].name + " ---\n" + out2
+							o.Output = out + "\n--- " + solvers[2].name + " ---\n" + out2
 						}
 					}
 					return
